@@ -122,7 +122,7 @@ def install_span(I, rec, debug_mode=False):
     add(r"core::num::u\d+::(wrapping|checked|saturating|overflowing)_\w+$", lambda I, a, f: Term(f.id.rsplit("::", 1)[-1], *a))
 
 
-def lower_variant(F, vdef, debug_mode=False, max_paths=256):
+def lower_variant(F, vdef, debug_mode=False, max_paths=256, payload=None):
     fn = F.fn(COMPILE)
     adt = F.adt(INSTR)
     L = Lowering(vdef["name"])
@@ -136,8 +136,8 @@ def lower_variant(F, vdef, debug_mode=False, max_paths=256):
         return I
 
     def run(I):
-        payload = [payload_for(f["ty"], i) for i, f in enumerate(vdef["fields"])]
-        ins = Agg(payload, "adt", adt["id"], vdef["name"])
+        pl = list(payload) if payload is not None else [payload_for(f["ty"], i) for i, f in enumerate(vdef["fields"])]
+        ins = Agg(pl, "adt", adt["id"], vdef["name"])
         return I.call(fn.id, [Ptr([Opaque("Assembler")], 0), Ptr([ins], 0), Ptr([Opaque("SpanBuilder")], 0), Ptr([Opaque("AssemblyContext")], 0)])
 
     for I, out, exc in enumerate_paths(make, run, max_paths=max_paths):
